@@ -79,6 +79,14 @@ func C04(r *report.Report, tier string) {
 	for _, h := range crashHistories(crashAlphabet(), cdepth) {
 		jobs = append(jobs, crashArg{Prop: "C04", DiskSize: 3000, Setup: crashSetup, Ops: h, Cap: cap, Probe: crashProbe, FsckOnly: true})
 	}
+	// images cut between the background transactions that free a 530-block file
+	maxImg := 200
+	if tier == "thorough" {
+		maxImg = 0
+	}
+	for _, h := range [][]fsx.Op{{{K: "REMOVE", H: "root", N: "big"}}, {{K: "SETATTR", H: "root/big", Size: 0}}} {
+		jobs = append(jobs, crashArg{Prop: "C04", DiskSize: 3000, Setup: big530Setup, Ops: h, Cap: 64, MaxImages: maxImg, FsckOnly: true, Probe: &fsx.Probe{Full: 4 << 20}})
+	}
 	runCrashJobs(r, jobs, map[string]bool{"C04": true})
 	r.Extra["bounds"] = map[string]int{"depth": depth, "crash_depth": cdepth, "deviations": bound, "loss_product_cap": cap}
 }
